@@ -231,6 +231,17 @@ func (e *GenEnv) GenScenario(t *rapid.T, maxSets, maxRecs int) Scenario {
 		}
 	}
 	if len(pre) > 0 {
+		// sometimes an older, different definition of the pre-announced templates was announced before
+		if rapid.IntRange(0, 3).Draw(t, "superseded") == 0 {
+			var old []Template
+			for _, tp := range pre {
+				old = append(old, e.GenTemplate(t, tp.ID))
+			}
+			var m0 Msg
+			e.GenHeader(t, &m0)
+			m0.Sets = e.GenTemplateSets(t, old)
+			sc.Pre = append(sc.Pre, m0)
+		}
 		var m Msg
 		e.GenHeader(t, &m)
 		m.Sets = e.GenTemplateSets(t, pre)
